@@ -4,3 +4,4 @@ import Props.C02
 import Props.C12
 import Props.C08
 import Props.C07
+import Props.C11
